@@ -49,10 +49,10 @@ def grid(tier, prop):
     if prop == 'C02':
         return [(7, [3], 2, 4, 0)] if tier == 'quick' else [(7, [0, 3, 7], 2, 4, 0), (16, [2, 16], 2, 12, 0)]
     if tier == 'quick':
-        return [(7, [0, 1, 3, 7], 2, 4, 0), (16, [2, 16], 3, 11, 1)]
+        return [(7, [0, 1, 3, 7], 2, 4, 0), (16, [2, 16], 3, 10, 1)]
     g = []
     for safe in (0, 1):
-        g += [(1, [0, 1], 1, 2, safe), (3, [0, 1, 2, 3], 2, 3, safe), (7, list(range(8)), 2, 4, safe), (15, [0, 1, 8, 15], 3, 11, safe), (16, [0, 1, 8, 16], 3, 12, safe), (20, [0, 5, 20], 4, 13, safe)]
+        g += [(1, [0, 1], 1, 2, safe), (3, [0, 1, 2, 3], 2, 3, safe), (7, list(range(8)), 2, 4, safe), (15, [0, 1, 8, 15], 3, 10, safe), (16, [0, 1, 8, 16], 3, 9, safe), (20, [0, 5, 20], 4, 8, safe)]   # TSCAP <= 10 so that a text longer than Capacity exists for int
     return g
 
 
